@@ -268,6 +268,7 @@ func checkC09(c *ev.Ctx) {
 		if j.w != nil {
 			w := j.w
 			id := fmt.Sprintf("%s@%d:%v:%v", w.ID, j.k, j.forever, j.partial)
+			noteCase(id)
 			if !want(c, id) {
 				return
 			}
@@ -296,6 +297,7 @@ func checkC09(c *ev.Ctx) {
 		}
 		r := j.r
 		id := fmt.Sprintf("%s@%d:%v:%v", r.ID, j.k, j.forever, j.withData)
+		noteCase(id)
 		if !want(c, id) {
 			return
 		}
